@@ -5,7 +5,7 @@
    Sorted git_le l = every adjacent pair is in git's order (what git's fsck calls a sorted tree). *)
 From Coq Require Import Permutation Sorted.
 From GixV.Base Require Import Bytes Outcome.
-From GixV.C03 Require Import Model Spec ProofsCmp ProofsSort ProofsSearch ProofsWrite ProofsMain ProofsExamples.
+From GixV.C03 Require Import Model Spec ProofsCmp ProofsSort ProofsSearch ProofsWrite ProofsMain ProofsEdit ProofsExamples.
 
 (* ---- the comparison ---------------------------------------------------------------------------- *)
 
@@ -96,6 +96,37 @@ Theorem bisect_in_own_sorted_tree : forall es name d,
   bisect_entry (sort_entries es) name d = Ok (linear_find es name d).
 Proof. exact bisect_after_sort. Qed.
 
+(* ---- the one-level tree editor (upsert / remove / write of single-component paths) ------------------
+   Inv es = names '/'-free, entries in key order, names unique.  step_effect says which entry is
+   new and which is gone (ProofsEdit.v). *)
+
+Theorem binary_search_miss_is_insertion_point :
+  forall (A : Type) (f : A -> comparison) (l : list A) i,
+  up_closed_gt f l -> down_closed_lt f l -> binary_search_by f l = Ok (inr i) ->
+  i <= length l /\
+  (forall j e, j < i -> nth_error l j = Some e -> f e = Lt) /\
+  (forall j e, i <= j -> nth_error l j = Some e -> f e = Gt).
+Proof. exact @bsearch_err_partition. Qed.
+
+Theorem editor_step_keeps_git_order : forall es op,
+  Inv es -> op_name_ok op ->
+  (exists es' w, edit_step es op = Ok (es', w) /\ Inv es' /\ step_effect es op es') \/
+  edit_step es op = Err EmptyPathComponent.
+Proof. exact edit_step_spec. Qed.
+
+Theorem editor_history_keeps_git_order : forall ops es,
+  Inv es -> Forall op_name_ok ops ->
+  (exists fin ws, edit_run es ops = Ok (fin, ws) /\ Inv fin /\ Forall Inv ws) \/
+  edit_run es ops = Err EmptyPathComponent.
+Proof. exact edit_run_spec. Qed.
+
+Theorem editor_tree_is_gits_arrangement : forall es l,
+  Inv es -> Forall nf es -> Permutation l es -> Sorted git_le l -> l = es.
+Proof. exact inv_is_git_arrangement. Qed.
+
+Theorem editor_tree_passes_the_write_assertion : forall es, Inv es -> sort_entries es = es.
+Proof. exact inv_is_sorted_form. Qed.
+
 (* ---- non-vacuity: a tree with prefix-related names on both sides of '/' meets every hypothesis ---- *)
 
 Example hyp_slash_free : Forall sf ex_sorted /\ Forall sf ex_shuffled.
@@ -134,3 +165,13 @@ Example nul_in_name_differs_from_git :
   entry_cmp (mkEntry 33188 (bs "a") oid1) (mkEntry 33188 [x61; x00] oid1) = Lt /\
   git_cmp (mkEntry 33188 (bs "a") oid1) (mkEntry 33188 [x61; x00] oid1) = Eq.
 Proof. exact ex_nul_in_name_differs. Qed.
+Example editor_starts_in_invariant : Inv [].
+Proof. exact inv_nil. Qed.
+Example editor_history_hyp : Forall op_name_ok ex_history.
+Proof. exact ex_history_ok. Qed.
+Example editor_history_example :
+  edit_run [] ex_history =
+  Ok ([ mkEntry 33188 (bs "a.") oid1; mkEntry 16384 (bs "a") oid1 ],
+      [ [ mkEntry 33188 (bs "a") oid1; mkEntry 33188 (bs "a.") oid1; mkEntry 33188 (bs "a0") oid1 ];
+        [ mkEntry 33188 (bs "a.") oid1; mkEntry 16384 (bs "a") oid1 ] ]).
+Proof. exact ex_history_run. Qed.
